@@ -75,10 +75,12 @@ LARGE_COMMUNITY_PARTS = 3  # <global administrator>:<local data 1>:<local data 2
 
 def prefix(tokeniser: 'Tokeniser') -> IPRange:
     ip = tokeniser()
-    try:
-        ip, mask_str = ip.split('/')
+    if '/' in ip:
+        ip, mask_str = ip.split('/', 1)
+        if not (mask_str.isascii() and mask_str.isdigit()):
+            raise ValueError(f"'{mask_str}' is not a valid prefix length\n  Must be a number (e.g., 10.0.0.0/24)")
         mask = int(mask_str)
-    except ValueError:
+    else:
         mask = 32
         if ':' in ip:
             mask = 128
